@@ -32,8 +32,9 @@ CHECKS = {
         tech="Coq proof (section-level round-trip lemmas, partial) + byte-exact correspondence of a full pipeline model + independent-reader oracle",
     ),
     "C03": dict(
-        text="PARTIAL. Same pipeline model, tied byte for byte. Proved: MRGN and UPRP slot codecs are the identity in editor "
-             "form (reserved bits clear, last-id references, owner 0 — editor-prefilled slots included), unmodelled sections "
+        text="PARTIAL. Same pipeline model, tied byte for byte. Proved: the WHOLE 255-slot location table and the WHOLE 64-slot "
+             "unit-property table are the identity in editor form (induction over the slot list; reserved bits clear, last-id "
+             "references, owner 0 — editor-prefilled slots included), unmodelled sections "
              "come back identical in place, the STR section of an unedited map is emitted exactly as loaded. Byte identity of whole editor-form maps and idempotence of the cycle for every "
              "decodable map (editor-form and non-canonical) are checked on the implementation per map; the three places "
              "where the unchanged code is not byte-identical are recorded findings with replayed witnesses.",
